@@ -275,6 +275,18 @@ func (e *Engine) repairVariants(fn *types.Func, fc *FuncContract) []contractVari
 			cp := *fc
 			cp.Spec = sp
 			vs = append(vs, contractVariant{&cp, fmt.Sprintf("loop invariants restated over the new local %s in place of %s", w.name, x), ""})
+			if _, ok := countFrom[w.name]; ok {
+				// a loop counter shifted by one (i over len-1..0 became n over len..1, or the other way round)
+				for _, repl := range []string{"(" + w.name + " - 1)", "(" + w.name + " + 1)"} {
+					repl := repl
+					sp3, err := copySpec(fc.Spec, func(t string) string { return substIdentOutsideOld(t, x, repl) })
+					if err == nil {
+						cp3 := *fc
+						cp3.Spec = sp3
+						vs = append(vs, contractVariant{&cp3, fmt.Sprintf("loop invariants restated with %s replaced by %s (a loop counter shifted by one)", x, repl), ""})
+					}
+				}
+			}
 			if e, ok := countFrom[w.name]; ok {
 				repl := "(" + e + " - " + w.name + ")"
 				sp2, err := copySpec(fc.Spec, func(t string) string { return substIdentOutsideOld(t, x, repl) })
